@@ -108,6 +108,8 @@ fn profile_for(prop: &str) -> Profile {
         "C13" => {
             p.p_fault = 100;
             p.p_c = 12;
+            p.p_omit = 35;
+            p.max_outputs = 4;
         }
         "C14" => {
             p.p_declare = 25;
@@ -329,7 +331,14 @@ pub fn judge_run_case(ctx: &mut Ctx, suite: &str, cs: u64, case: &Case, src: &st
     // the property judged on the implementation's own trace
     let declared = declared_of(case);
     let mut verdicts: Vec<Result<(), String>> = vec![];
+    // corpus cases come as raw text: oracles that need the generating AST do not apply to them
+    let has_ast = !case.prog.header.is_empty();
     match prop.as_str() {
+        "C03" | "C06" | "C13" | "C19" if !has_ast => {
+            if prop == "C13" {
+                verdicts.push(oracle_c13(case, &run.lines, &run.script));
+            }
+        }
         "C02" => verdicts.push(oracle_c02(case, &run.lines)),
         "C03" => verdicts.push(oracle_c03(case, &run.lines, &run.script, &declared)),
         "C06" => verdicts.push(oracle_c06(case, &run.lines, &declared)),
@@ -714,6 +723,14 @@ fn mutate(prog: &Prog, r: &mut Prng, style: &Style) -> (String, bool, &'static s
         3 => {
             // a data row with one entry too many / too few
             let extra = r.chance(1, 2);
+            let extra_entry = match r.below(6) {
+                0 => GEntry::C,
+                1 => GEntry::X,
+                2 => GEntry::Z,
+                3 => GEntry::Expr(GExpr::Num(1)),
+                4 => GEntry::Bits(1, GExpr::Num(1)),
+                _ => GEntry::Num(1),
+            };
             let mut done = false;
             edit_rows(&mut p.stmts, &mut |row| {
                 if done {
@@ -721,7 +738,7 @@ fn mutate(prog: &Prog, r: &mut Prng, style: &Style) -> (String, bool, &'static s
                 }
                 done = true;
                 if extra {
-                    row.push(GEntry::Num(1));
+                    row.push(extra_entry.clone());
                 } else if row.len() > 1 {
                     row.pop();
                 } else {
@@ -1275,7 +1292,11 @@ pub fn run_property(ctx: &mut Ctx) {
     let prop = ctx.prop.clone();
     crate::corpus::run_corpus(ctx);
     match prop.as_str() {
-        "C01" | "C02" | "C03" | "C04" | "C05" | "C06" | "C10" | "C11" | "C13" | "C14" | "C18" => suite_run(ctx, "run", k(1500, 60000)),
+        "C01" | "C02" | "C03" | "C04" | "C05" | "C06" | "C11" | "C13" | "C14" | "C18" => suite_run(ctx, "run", k(6000, 60000)),
+        "C10" => {
+            suite_run(ctx, "run", k(6000, 60000));
+            suite_ops(ctx, "ops", k(20, 2000));
+        }
         "C07" => {
             suite_mask(ctx, "mask");
             suite_run(ctx, "run", k(600, 30000));
